@@ -6,7 +6,7 @@ or last letter, and the symmetries exchange the two letters or reverse every wor
 are honest bijections and the truth is the set itself.  Classes have several competing rules and
 the two symmetries merge classes in different ways, which is what the parallel finder has to
 cope with.  (The universe is the one a sub-agent built for its demonstration of a seeded change
-to the finder; it found two failures of the unchanged finder there - the two open findings.)"""
+to the finder; it found failures of the unchanged finder there, since repaired - fix 5f70813.)"""
 from comb_spec_searcher import (
     AtomStrategy,
     CartesianProductStrategy,
@@ -212,7 +212,9 @@ def rand_side(rng):
     exp = [e for e in ("sf", "sl", "ss", "ff", "fl") if rng.random() < 0.7] or ["sf"]
     if "sf" not in exp and "sl" not in exp and "ss" not in exp:
         exp.append(rng.choice(("sf", "sl")))
+    rng.shuffle(exp)  # the order of the strategies decides the numbering of the classes
     sym = [s for s in ("c", "r") if rng.random() < 0.5]
+    rng.shuffle(sym)
     return {"exp": exp, "sym": sym}
 
 
